@@ -188,3 +188,141 @@ Proof.
     vm_compute. reflexivity.
   - vm_compute. repeat split.
 Qed.
+
+(* ==== the pinned tree: the three repaired defects, as refuted clauses ======================= *)
+From Verif Require Import Model.ClosePinned Proofs.ClosePinnedP.
+
+(* Model/ClosePinned.v parameterises the step functions by a flag: [step_v false] / [cstep_v false]
+   are the repaired models all theorems above are about; [.. true] has (a) Channel.Close assigning
+   StartClose unconditionally, (b) handleCallReq's re-check branch shutting the exchange down without
+   an error frame, (c) connectionCloseStateChange applying its update only while the channel state
+   still equals the value read before the scan. *)
+Theorem C07_pinned_flag_false_is_repaired :
+  (forall s ls, run (step_v false) s ls = run ConnClose.step s ls) /\
+  (forall s ls, run (cstep_v false) s ls = run cstep s ls) /\
+  (forall relay s, Reach (step_v false) (ConnClose.init relay) s <-> Reach ConnClose.step (ConnClose.init relay) s) /\
+  (forall s, Reach (cstep_v false) cinit s <-> Reach cstep cinit s).
+Proof. exact pinned_false_is_repaired. Qed.
+Print Assumptions C07_pinned_flag_false_is_repaired.
+
+(* (a) C07_chan_monotone fails on the pinned tree.  Schedule: listen; one connection; Close; the
+   connection drains its inbound side; its callback moves the channel to InboundClosed (4); a
+   second Close puts it back to StartClose (3). *)
+Theorem C07_chan_monotone_pinned_refuted : exists ls1 ls2 s1 s2,
+  run (cstep_v true) cinit ls1 = Some s1 /\ run (cstep_v true) s1 ls2 = Some s2 /\
+  ~ (chst (csh s1) <= chst (csh s2)) /\ chst (csh s1) = hIC /\ chst (csh s2) = hSC.
+Proof. exact chan_monotone_pinned_refuted_ex. Qed.
+Print Assumptions C07_chan_monotone_pinned_refuted.
+
+(* (b) C07_refuse fails on the pinned tree: a handleCallReq thread finishes "refused at the
+   re-check" although no error frame at all was queued and the connection is still open
+   (StartClose, held by another call).  Schedule: call 7 dispatched; frame 5 passes the first
+   check and registers; Close; frame 5 fails the re-check. *)
+Theorem C07_refuse_pinned_refuted : exists relay s n id,
+  Reach (step_v true) (ConnClose.init relay) s /\
+  nth_error (thr s) n = Some (PDone oRefused2 id) /\
+  ~ answered (sh s) n id eDeclined /\
+  g_replies (sh s) = [] /\ st (sh s) = sSC.
+Proof. exact refuse_pinned_refuted_ex. Qed.
+Print Assumptions C07_refuse_pinned_refuted.
+
+(* (c) C07_chan_reaches_closed fails on the pinned tree: every hypothesis holds (Close issued, no
+   tracked connection, every state change had its callback, no thread mid-step) and the channel
+   is stuck in InboundClosed with ch.closed never closed.  Schedule: callback A (connection at
+   InboundClosed) and callback B (connection Closed and removed) both read chState = StartClose;
+   A applies InboundClosed first; B's update to Closed is dropped because state <> chState. *)
+Theorem C07_chan_reaches_closed_pinned_refuted : exists s,
+  Reach (cstep_v true) cinit s /\
+  hSC <= chst (csh s) /\
+  (forall c, In c (conns (csh s)) -> cstate (csh s) c = kCl) /\
+  g_owed (csh s) = [] /\
+  (forall n p, nth_error (cthr s) n = Some p -> exists o, p = CDone o) /\
+  ~ (chst (csh s) = hCl /\ g_closed (csh s) = 1) /\
+  chst (csh s) = hIC /\ conns (csh s) = [] /\ g_closed (csh s) = 0.
+Proof. exact chan_reaches_closed_pinned_refuted_ex. Qed.
+Print Assumptions C07_chan_reaches_closed_pinned_refuted.
+
+(* the same three schedules on the repaired model: state kept / declined reply queued / Closed *)
+Example C07_example_witnesses_repaired :
+  (exists s, run (cstep_v false) cinit (pinned_mono_prefix ++ pinned_mono_suffix) = Some s /\ chst (csh s) = hIC) /\
+  (exists s, run (step_v false) (ConnClose.init false) (pinned_refuse_witness ++ [LRun 1]) = Some s /\
+             nth_error (thr s) 1 = Some (PDone oRefused2 5) /\ g_replies (sh s) = [(1%nat, 5, eDeclined)]) /\
+  (exists s, run (cstep_v false) cinit pinned_stuck_witness = Some s /\ chst (csh s) = hCl).
+Proof. exact (conj chan_monotone_witness_repaired (conj refuse_witness_repaired stuck_witness_repaired)). Qed.
+
+(* ==== the admission and close decisions are the ones regenerated from the source ============ *)
+From Coq Require Import Permutation.
+From Verif Require Import Gen.GenClose Proofs.CloseGenP.
+
+(* Gen/GenClose.v is produced by go2v on every run from relay.go (canClose, canHandleNewCall),
+   inbound.go (handleCallReq: state switch, re-check), outbound.go (beginCall: state switch,
+   re-check) and channel.go (getMinConnectionState, connectionCloseStateChange, Close).  The steps
+   of the hand models that take these decisions are equal to the generated definitions:
+   1 = the call proceeds, 0 = the refusing branch (which go2v only accepts when it contains the
+   SendSystemError(ErrChannelClosed) resp. mex.shutdown() statements). *)
+Theorem C07_decisions_generated :
+  (forall s n k moved,
+     tstep s n (PCE3 k) = Some (s, if relayCanClose (has_relay s) (pending s) then PCE4 k else resume k) /\
+     tstep s n (PCE6 moved k) = Some (s, if relayCanClose (has_relay s) (pending s) then PCE7 moved k else resume k)) /\
+  (forall s n id remote,
+     tstep s n (PRel1 id remote) =
+       if relayCanHandle (st s)
+       then Some (set_pending s (relayPendingAfter true (pending s)) (g_live s ++ [n]), PRelLive id)
+       else Some (set_pending s (relayPendingAfter false (pending s)) (g_live s),
+                  if remote then PDone oRelRemote id else PRelRef id)) /\
+  (forall s n id, sA <= st s <= sCl ->
+     exists d, callReqStateSwitch (st s) = Some d /\
+               tstep s n (PR1 id) = Some (s, if d =? 1 then PR2 id else PRRef id)) /\
+  (forall c, ~ (sA <= c <= sCl) -> callReqStateSwitch c = None) /\
+  (forall s n id,
+     tstep s n (PR3 id) = if callReqRecheck (st s) =? 1
+                          then Some (set_inb s (set_flag id (inb s)), PDone oDispatched id)
+                          else Some (s, PR4 id)) /\
+  (forall s n id,
+     tstep s n PC1 = Some (s, if beginCallStateSwitch (st s) =? 1 then PC2 else PDone oCClosed1 0) /\
+     (sA <= st s <= sCl -> beginCallStateSwitch (st s) <> 2) /\
+     tstep s n (PC3 id) = if beginCallRecheck (st s) =? 1
+                          then Some (set_outb s (set_flag id (outb s)), PDone oBegun id)
+                          else Some (s, PC4 id)) /\
+  (forall s l, Permutation l (conns s) ->
+     fold_left (fun m c => minStateStep m (cstate s c)) l minStateInit = minstate s) /\
+  (forall m c, update_to m c = chanUpdateTo m c) /\
+  (forall s c cs u arg,
+     ctstep s (PCb5 c cs u) arg =
+       Some (set_chst s (chanApplyUpdate (chst s) u),
+             if chst s <? u then (if u =? hCl then PCb6 else CDone oCbDone) else CDone oCbDone)) /\
+  (forall s arg, chst s <> hCl ->
+     ctstep s PCl1 arg =
+       match conns s with
+       | [] => Some (set_chst (set_chst s (chanCloseState (chst s))) hCl, PCl2 [] true)
+       | _ => Some (set_chst s (chanCloseState (chst s)), PCl2 (conns s) false)
+       end).
+Proof. exact close_generated. Qed.
+Print Assumptions C07_decisions_generated.
+
+(* ==== the listener correspondence engine stays inside the model's reachable states ========= *)
+From Verif Require Import Proofs.ListenerRunP.
+
+(* Every operation of a listenerclose script (an Accept / Close call in a new goroutine, the
+   return of a parked Accept) followed by the settling of the waiting Close calls is a sequence
+   of steps of the listener system: the states compared with the real tnet wrapper are states
+   C07_listener quantifies over; and after settling no Close call waits although refs = 0. *)
+Theorem C07_listener_entry_reachable : forall s op a,
+  Reach lstep linit s -> Reach lstep linit (lsettle (fst (lop s op a))).
+Proof. exact listener_entry_reachable. Qed.
+Print Assumptions C07_listener_entry_reachable.
+
+Theorem C07_listener_settled : forall s j p,
+  nth_error (lthr (lsettle s)) j = Some p -> refs (lsettle s) = 0 -> p <> LK2.
+Proof. exact listener_settled. Qed.
+Print Assumptions C07_listener_settled.
+
+(* two Accept calls park; Close: underlying closed, blocked (refs = 2); a third Accept fails at
+   once; the first parked Accept still returns a connection (refs = 1, Close still blocked); the
+   second returns an error: refs = 0 and Close returns nil.
+   observation per op: code refs closed #parked #acc-conn #acc-err #close-blocked #close-nil #close-err *)
+Example C07_example_listener :
+  run_listenerclose [6; 0;0; 0;0; 3;0; 0;0; 1;0; 2;1]
+  = [0;1;0;1;0;0;0;0;0;  0;2;0;2;0;0;0;0;0;  0;2;1;2;0;0;1;0;0;  0;2;1;2;0;1;1;0;0;
+     0;1;1;1;1;1;1;0;0;  0;0;1;0;1;2;0;1;0].
+Proof. vm_compute. reflexivity. Qed.
